@@ -367,8 +367,25 @@ impl std::fmt::Display for TulispValue {
             TulispValue::Symbol { value } => f.write_str(&value.name),
             TulispValue::LexicalBinding { value, .. } => f.write_str(&value.name),
             TulispValue::Int { value, .. } => f.write_fmt(format_args!("{}", value)),
-            TulispValue::Float { value, .. } => f.write_fmt(format_args!("{}", value)),
-            TulispValue::String { value, .. } => f.write_fmt(format_args!(r#""{}""#, value)),
+            TulispValue::Float { value, .. } => {
+                // Keep a fractional part on integral floats, so that the text
+                // reads back as a float and not as an integer.
+                if value.is_finite() && value.fract() == 0.0 {
+                    f.write_fmt(format_args!("{:.1}", value))
+                } else {
+                    f.write_fmt(format_args!("{}", value))
+                }
+            }
+            TulispValue::String { value, .. } => {
+                f.write_char('"')?;
+                for ch in value.chars() {
+                    if ch == '"' || ch == '\\' {
+                        f.write_char('\\')?;
+                    }
+                    f.write_char(ch)?;
+                }
+                f.write_char('"')
+            }
             vv @ TulispValue::List { .. } => {
                 fmt_list(vv.clone().into_ref(None), f).unwrap_or(());
                 Ok(())
